@@ -20,7 +20,7 @@ import QipVerif.Model.PulseStore
 open QipVerif QipVerif.Proto QipVerif.RatProto QipVerif.Concat
 
 def errName : Err → String
-  | .shape => "shape" | .index => "index" | .zerodiv => "zerodiv" | .empty => "empty" | .type => "type" | .badperm => "badperm"
+  | .shape => "shape" | .index => "index" | .zerodiv => "zerodiv" | .empty => "empty" | .type => "type" | .badperm => "badperm" | .t0 => "t0"
 
 def wave? (s : String) : Option Wave :=
   match s.splitOn ":" with
